@@ -22,7 +22,7 @@ import z3
 from ..core import obligation
 from .. import px, sym
 from ..px import SymReal, SymBool, is_sym, NP
-from ..sym import Le, Lt, Eq, Holds, v_and, v_or, v_le, v_lt, v_eq, v_sub, v_dot, v_sq, v_implies
+from ..sym import Le, Lt, Eq, Holds, v_and, v_le, v_eq, v_sub, v_dot
 from .c01 import UObjective
 
 P = 'C05'
@@ -673,11 +673,16 @@ def _reg_spg(nonmonotone, hist, pattern, tiers):
     def ob(h):
         _o4_note(h)
         prove_product_lemma(h)
-        px.run_px(h, 'body', make_spg_body_harness(pattern, nonmonotone, hist), cap=40, order=SPG_ORDER, div_mode='goal', sqrt_mode='goal', feas_ms=60,
+        order, cap = SPG_ORDER, 40
+        if n >= 2:
+            # measured: on the root-path/root-path paths in 2-D `alpha >= 0` is unknown for nlsat and for the default solver
+            # at 200 s but unsat for z3's qfnra portfolio tactic in ~32 s
+            order, cap = dict(SPG_ORDER, step_length_in_unit_interval=('qfnra', 'nlsat')), 150
+        px.run_px(h, 'body', make_spg_body_harness(pattern, nonmonotone, hist), cap=cap, order=order, div_mode='goal', sqrt_mode='goal', feas_ms=60,
                   expect_goals=SPG_GOALS_BODY)
     ob.__doc__ = ('one body of the SPG loop of solve_spg_subproblem (%s line search, history %s, n=%d, bound kinds %s) from an arbitrary loop-head state satisfying the invariant: '
                   'alpha in [0,1], x+z stays in the box and |z| <= trSize, bookkeeping identities for d and q, honest returns' % ('non-monotone' if nonmonotone else 'exact', hist, n, '/'.join(pattern)))
-    obligation(P, 'O4.spg_body[%s-%s-n%d-%s]' % ('nonmonotone' if nonmonotone else 'exact', hist, n, '.'.join(pattern)), tiers=tiers, cap=900)(ob)
+    obligation(P, 'O4.spg_body[%s-%s-n%d-%s]' % ('nonmonotone' if nonmonotone else 'exact', hist, n, '.'.join(pattern)), tiers=tiers, cap=900 if n == 1 else 1200)(ob)
 
 
 for _pat in (('ff',), ('fi',), ('ii',)):
